@@ -1,7 +1,7 @@
 """Iterator obligations: O4.1 MergingIterator (with CachingIterator inlined) over abstract children; O4.2 DatabaseIterator; O4.3 two-level iterators."""
 import itertools, time
 from z3 import Extract, BitVec, BitVecVal, Bool, BoolVal, And, Or, Not, Implies, ULT, ULE, UGT, UGE, If, simplify, is_true
-from ..exec import Exec, Enum, Ref, Opaque, Inconclusive, bv
+from ..exec import Exec, Enum, Ref, Opaque, Inconclusive, Delegate, bv
 from ..ob import World, Result, klt, kle, keq, mval, key_bytes, MAXSEQ
 from .. import lib, absiter
 from .version import base_summaries
@@ -33,6 +33,8 @@ def ref_cursor(op, pos, n, seekpos):
 QUICK_PATTERNS = [['first', 'next', 'next', 'prev'], ['last', 'prev', 'next', 'next'], ['first', 'next', 'prev', 'prev'], ['last', 'prev', 'prev', 'next'],
                   ['last', 'prev', 'seek', 'prev'], ['first', 'next', 'seek', 'next'], ['seek', 'prev', 'prev', 'next'], ['seek', 'next', 'prev', 'next'],
                   ['last', 'seek', 'prev', 'prev'], ['first', 'seek', 'prev', 'next'], ['seek', 'prev', 'seek', 'next'], ['last', 'next'], ['first', 'prev'],
+                  # a seek to the same target while the cursor rests on a neighbour of the answer
+                  ['seek', 'next', 'seek'],
                   # absolute repositioning after the cursor has moved
                   ['first', 'next', 'first', 'next'], ['seek', 'first', 'next'], ['last', 'prev', 'last', 'prev'], ['seek', 'last', 'prev'],
                   # absolute repositioning while the cursor is parked in the opposite direction
@@ -478,3 +480,51 @@ def o4_2_database_iterator(mir, tier):
 def o4_2_confirm(v, out):
     from .. import dbmodel
     return dbmodel.compare(v['replay'][1:], out)
+
+
+# =============================================================== O4.8 BlockIter
+def o4_8_block_iter(mir, tier):
+    """BlockIter<K> (the cursor over the parsed entries of one block; K = InternalKey: `<K as Ord>::cmp` / `<K as PartialEq>::eq` are
+    the real InternalKey functions) = cursor over the entry vector, for the cursor patterns of O4.1-O4.3 with a free seek target
+    (equal to a stored key up to the operation tag included)."""
+    ops = {n: mir.method('BlockIter', n, 'RainDbIterator') for n in ('seek', 'seek_to_first', 'seek_to_last', 'next', 'prev', 'is_valid', 'current')}
+    sizes = (1, 2, 3) if tier == 'quick' else (1, 2, 3, 4, 5)
+    patterns = QUICK_PATTERNS if tier == 'quick' else [list(p) for L in (3, 4) for p in itertools.product(['first', 'last', 'seek', 'next', 'prev'], repeat=L) if p[0] in ('first', 'last', 'seek')]
+    res = Result('O4.8 BlockIter vs the entries of its block', [f.path for f in ops.values()] + ['<InternalKey as Ord>::cmp, <InternalKey as PartialEq>::eq (for K)'],
+                 'blocks of %s parsed entries (sorted, free keys / values); %d cursor patterns of length <= 4 with a free seek target' % (sizes, len(patterns)))
+    t0 = time.time()
+    cmp_fn = mir.method('InternalKey', 'cmp', 'Ord'); eq_fn = mir.method('InternalKey', 'eq', 'PartialEq')
+    for N in sizes:
+        w = World(mir)
+        ents = [(w.key('e%d' % i), BitVec('v%d' % i, 8)) for i in range(N)]
+        KE = [w.K(e[0]) for e in ents]
+        pre = list(w.pre) + [klt(KE[i], KE[i + 1]) for i in range(N - 1)]
+        for pat in patterns:
+            tk = w.key('t'); T = w.K(tk)
+            S = base_summaries(mir); P = S['$patterns']
+            P[r'<K as Ord>::cmp'] = lambda se, env, pc, a, b: Delegate(cmp_fn, [a, b], lambda r: r)
+            P[r'<K as PartialEq>::eq'] = lambda se, env, pc, a, b: Delegate(eq_fn, [a, b], lambda r: r, merge=True)
+            P[r'<Arc<Vec<BlockEntry<K>>> as Deref>::deref'] = lib.ptr_deref
+            for pat_, f_ in lib.ref_partial_ord(mir, 'InternalKey').items():          # every comparison on K is InternalKey's
+                P[pat_.replace('InternalKey', 'K')] = f_
+            P[r'<K as PartialOrd>::partial_cmp'] = lambda se, env, pc, a, b: Delegate(mir.method('InternalKey', 'partial_cmp', 'PartialOrd'), [a, b], lambda r: r)
+            ex = Exec(mir, S, loop_bound=N + 4)
+            blk = [mir.mk_struct('BlockEntry', block_offset=bv(0), key_num_shared_bytes=BitVecVal(0, 32), key_num_unshared_bytes=BitVecVal(0, 32), value_length=BitVecVal(1, 32), key_delta=[], key=e[0], value=e[1]) for e in ents]
+            it = mir.mk_struct('BlockIter', current_index=bv(0), block_entries=blk)
+            env0 = {'$state': {}, '$it': it, '$t': tk}
+            def argv(m, pat, N=N, KE=KE, ents=ents, T=T):
+                es = ['%s:%d:%d:%02x' % (key_bytes(mval(m, KE[i][0])), mval(m, KE[i][1]), mval(m, KE[i][2]), mval(m, ents[i][1])) for i in range(N)]
+                return ['block_iter', ','.join(pat), '%s:%d' % (key_bytes(mval(m, T[0])), mval(m, T[1]))] + es
+            drive_cursor(ex, ops, Ref('$it'), pat, [(KE[i], ents[i][1]) for i in range(N)], T, env0, pre + [ULT(k[1], bv(MAXSEQ)) for k in KE] + [ULT(T[1], bv(MAXSEQ))], res,
+                         lambda opn: 'block iterator: after %s the cursor differs from the entries of the block (validity, key or value)' % opn, argv, w.K)
+            res.absorb(ex)
+    res.wall_s = time.time() - t0
+    if res.violations: res.status = 'violation'
+    return res
+
+
+def o4_8_confirm(v, out):
+    """Native: the entries are written with the real BlockBuilder, parsed by the real BlockReader, and its iterator is driven through
+    the pattern; the reference cursor is computed over the entry list."""
+    if out.get('_rc') != 0: return (True, 'native block iterator panicked: %s' % out.get('_stderr', '')[-200:])
+    return (out.get('cursor') != out.get('expected'), 'native cursor %s, cursor over the entry list %s' % (out.get('cursor'), out.get('expected')))
